@@ -13,9 +13,10 @@ import PptxModel.Drv.C07
 import PptxModel.Drv.C13
 import PptxModel.Drv.C03
 import PptxModel.Drv.C09
+import PptxModel.Drv.C12
 open Pptx
 
-def handlers : List (List String → Option String) := [Drv.C19.handle, Drv.C17.handle, Drv.C14.handle, Drv.C04.handle, Drv.C06.handle, Drv.C10.handle, Drv.C11.handle, Drv.C01.handle, Drv.C02.handle, Drv.C18.handle, Drv.C15.handle, Drv.C07.handle, Drv.C13.handle, Drv.C03.handle, Drv.C09.handle]
+def handlers : List (List String → Option String) := [Drv.C19.handle, Drv.C17.handle, Drv.C14.handle, Drv.C04.handle, Drv.C06.handle, Drv.C10.handle, Drv.C11.handle, Drv.C01.handle, Drv.C02.handle, Drv.C18.handle, Drv.C15.handle, Drv.C07.handle, Drv.C13.handle, Drv.C03.handle, Drv.C09.handle, Drv.C12.handle]
 
 def handle (line : String) : String :=
   let toks := (line.trimAscii.toString.splitOn " ")
